@@ -5,6 +5,10 @@ Specification: specs/geom/Contains.tla.
      model-level checks (three rays agree; vertex insertion and translation change nothing); inside
      bitmaps emitted and replayed into Polygon::contains incl. translated / vertex-inserted variants.
   2. MC_ContainsShapes: all rectangles and Manhattan paths (three-valued oracle) likewise.
+  2b. MC_WideCases: every simple lattice triangle / quadrilateral under seven invertible integer affine maps to
+     coordinates of 10^5 .. 2*10^9, plus near-miss triangles (cross product 1 against products of 10^18);
+     expectations from WideContains (64-bit signs by limbs), tied to Inside by AffineAgree; replayed
+     into Polygon::contains from every starting vertex in both orientations.
   3. Trace_Contains: random larger rectilinear / 45-degree / star polygons with query points on, next
      to and far from the boundary; every recorded answer validated against Inside.
 """
@@ -80,6 +84,35 @@ def run(chk):
                 chk.violation("wrong-answer", where, {k: c[k] for k in c if k in ("c0", "c1", "pts", "w")}, m)
     chk.sample({"path": paths[-1]["pts"], "width": paths[-1]["w"], "must": paths[-1]["must"]})
 
+    # ---- chip-scale coordinates, S->I (specs/geom/MC_WideCases.tla over WideContains / WideInt)
+    cfg = os.path.join(W, "mc_widecases.cfg")
+    gw, gq = (3, 2) if thorough else (2, 2)
+    open(cfg, "w").write(f"SPECIFICATION Spec\nCONSTANTS GW = {gw}  GQ = {gq}\n"
+                         "INVARIANTS AffineAgree HypNearMiss AllWide Emit\nCHECK_DEADLOCK FALSE\n")
+    r = tlc.check(os.path.join(D, "MC_WideCases.tla"), cfg, timeout=7200, mem="16g")
+    chk.add_tlc(f"MC_WideCases (triangles on 0..{gw}, quadrilaterals on 0..{gq}, 7 affine maps to 10^5..2*10^9, near-miss triangles)", r)
+    chk.tlc_must_pass("MC_WideCases", r)
+    wide = [dict(c, id=i) for i, c in enumerate(r.cases)]
+    chk.require(len(wide) > 10000 and sum(1 for c in wide if c["kind"] == "hyp") == 112, "wide case family incomplete")
+    distinct += len(wide)
+    nwide = 0
+    for c, q in zip(wide, vlib.harness("contains_at", wide, W)):
+        if q.get("outcome") != "ok":
+            chk.violation("wide-contains-crash", "Polygon::contains", {"poly": c["poly"]}, q)
+            continue
+        chk.cov["evaluations"] += q["evals"]
+        nwide += q["evals"]
+        for m in q["mismatch"][:2]:
+            chk.violation("wide-" + classify(m), "Polygon::contains", {"poly": m["points"], "query": m["query"]},
+                          {"got": m["got"], "expected": m["expected"], "variant": c["kind"] + "-" + m["variant"]})
+    chk.cov["wide_evaluations"] = nwide
+    chk.sample({"wide_polygon": wide[len(wide) // 2]["poly"], "queries": wide[len(wide) // 2]["qs"][:5],
+                "expected": wide[len(wide) // 2]["expect"][:5]})
+    # self-test: a flipped expectation must be reported
+    st = json.loads(json.dumps(wide[-1])); st["expect"][0] ^= 1
+    q = vlib.harness("contains_at", [st], W, tag="selftest_wide")[0]
+    chk.require(q["nmismatch"] >= 1, "replayer did not notice a flipped wide expectation")
+
     # ---- random larger polygons, I->S
     nb = 40 if thorough else 6
     batches = [{"id": b, "seed": chk.seed * 100 + b, "shapes": 50, "queries": 200 if thorough else 120} for b in range(nb)]
@@ -123,11 +156,14 @@ def run(chk):
         "model_checking",
         rule="every simple polygon as vertex sequence on lattices 0..2 (<=6 vertices) and 0..3 (<=4; thorough <=5, 0..4 <=4), each "
              "with 2 translates and every single-vertex insertion on an edge, queried on the whole window; all 256 rectangles; all "
-             "Manhattan paths with <=3 (4) points and widths 0..4; random rectilinear/45-degree/star polygons with up to ~56 vertices. "
+             "Manhattan paths with <=3 (4) points and widths 0..4; every simple lattice triangle (0..2; thorough 0..3) and "
+             "quadrilateral (0..2) under 7 invertible affine maps to coordinates of 10^5..2*10^9 queried at the images of the lattice "
+             "and their unit neighbours, from every starting vertex in both orientations, plus near-miss triangles; random rectilinear/45-degree/star polygons with up to ~56 vertices. "
              "distinct = distinct shapes; evaluations = individual contains() calls compared.",
         assumptions=["polygons are simple (self-intersecting outlines are outside the property)",
                      "path end caps and outer corners are unconstrained (weakest reading of the statement)",
-                     "coordinates below 10^4 so that cross products fit TLC's 32-bit integers"],
+                     "exhaustive and random families: coordinates below 10^4 (plain 32-bit cross products in TLC); wide family: coordinates within "
+                     "+-2^31 with differences below 2^31 (signs by 11-bit limbs, WideInt.tla), where the code's 64-bit products are exact"],
         extra={"exhaustive": True})
 
 
